@@ -78,6 +78,10 @@ package airgapped
 //@   requires am != nil && o != nil
 //@   modifies *
 //@   modifies $bufc
+// the report is made in the reporter's own name (the machines record the error for the participant the request names:
+// naming the dealer instead would be refused by every node once the dealer has answered)
+//@   assert@call Marshal[C11.report.self] istype(v, "requests.DKGProposalConfirmationErrorRequest") && v.(requests.DKGProposalConfirmationErrorRequest).ParticipantId == loc(pid)
+//@   assert@call getParticipantID[C11.report.self] dkgIdentifier == o.DKGIdentifier
 //@   ensures[C11.report.event] result == nil && old(o.Type) == "state_dkg_commits_await_confirmations" ==> o.Event == "event_dkg_commit_confirm_canceled_by_error"
 //@   ensures[C11.report.event] result == nil && old(o.Type) == "state_dkg_deals_await_confirmations" ==> o.Event == "event_dkg_deal_confirm_canceled_by_error"
 //@   ensures[C11.report.event] result == nil && old(o.Type) == "state_dkg_responses_await_confirmations" ==> o.Event == "event_dkg_response_confirm_canceled_by_error"
